@@ -182,6 +182,9 @@ Fixpoint sem {I A} (e : expr I A) (env : list (list I)) : list A :=
   | EBuyHold buy hold e => s_buy_and_hold buy hold (sem e env)
   end.
 
+(* length of a seeded recurrence: nothing without a seed, else the seed plus one value per further input *)
+Definition seeded_len (a b : nat) : nat := match a with O => O | S _ => S b end.
+
 (* Output length as a function of the input lengths only. *)
 Fixpoint elen {I A} (e : expr I A) (ns : list nat) : nat :=
   match e with
@@ -192,7 +195,7 @@ Fixpoint elen {I A} (e : expr I A) (ns : list nat) : nat :=
   | EHead k e | EFirst k e => Nat.min (Z.to_nat k) (elen e ns)
   | EOp2 _ a b | EOp2St _ _ a b => Nat.min (elen a ns) (elen b ns)
   | EOp3 _ a b c | EOp3St _ _ a b c => Nat.min (elen a ns) (Nat.min (elen b ns) (elen c ns))
-  | ESeeded seed p _ e => match elen seed ns with O => O | S _ => S (elen e ns - Z.to_nat p) end
+  | ESeeded seed p _ e => seeded_len (elen seed ns) (elen e ns - Z.to_nat p)
   | EKamaTail _ cl _ => elen cl ns - 1
   | EMovingStd _ p e => if Nat.eqb (Z.to_nat p) 0 then 0 else elen e ns - (Z.to_nat p - 1)
   | EBuyHold _ _ e => elen e ns
